@@ -476,10 +476,13 @@ Definition max_len (ls : list (list str)) (start : nat) : nat :=
 (* impl TryInto<AnnotationBuilder> for AnnotationCsv *)
 Definition csv_row (old : bool) (r : csvrow) : outcome abuild :=
   let id := opt (c_id r) in
-  if is_empty (c_data r) then Ok {| ab_id := id; ab_data := []; ab_target := None |}
+  (* [old]: the target columns were read only for rows with data (a row without data then
+     failed in annotate() with NoTarget); now only the data loop is skipped (62b1571, owner of C15) *)
+  if old && is_empty (c_data r) then Ok {| ab_id := id; ab_data := []; ab_target := None |}
   else
     let set_ids := split (c_set r) in
-    let data := map (fun p => (match get_or_last set_ids (fst p) with Some s => s | None => [] end, snd p))
+    let data := if is_empty (c_data r) then [] else
+                map (fun p => (match get_or_last set_ids (fst p) with Some s => s | None => [] end, snd p))
                     (enumerate_from 0 (split (c_data r))) in
     bind (kinds_of (split (c_kind r))) (fun kinds =>
     match kinds with
